@@ -333,8 +333,9 @@ Proof.
   { intros q HI. apply in_rev in HI. rewrite forallb_forall in H. apply H in HI. apply negb_true_iff in HI. exact HI. }
   destruct (rev ps) as [|q r]; [reflexivity|]. apply A. left. reflexivity.
 Qed.
-Lemma call_shape_closed : forall fd vals, closed_fn fd = true ->
-  call_shape (fd_params fd) vals = if Nat.eqb (length vals) (length (fd_params fd)) then Some (fd_params fd, vals, None) else None.
+Lemma call_shape_closed : forall fd args, closed_fn fd = true ->
+  call_shape (fd_params fd) args =
+  if Nat.eqb (length (map fst args)) (length (fd_params fd)) then Some (fd_params fd, map fst args, None, args) else None.
 Proof. intros. unfold call_shape. rewrite not_variadic; auto using closed_fn_nodots. Qed.
 
 (* ================================================================ closed bodies: the coincidence lemma *)
